@@ -561,7 +561,7 @@ class Func:
             for k in [k for k, v in envd.items() if isinstance(k, tuple) and v == l]:
                 envd.pop(k, None)
         self._forget_enum(envd, x)
-        for k in [k for k in envd if isinstance(k, tuple) and k[0] in ('F', 'FR', 'RF') and k[1] == x]:
+        for k in [k for k in envd if isinstance(k, tuple) and k[0] in ('F', 'FR', 'RF', 'FD') and k[1] == x]:
             envd.pop(k, None)
         # shared references to tracked scalars (a closure capturing a flag by reference, then inlined)
         if rv is not None:
@@ -582,6 +582,18 @@ class Func:
                 for i_, o_ in enumerate(rv.get('ops', [])):
                     if 'l' in o_ and not o_['p'] and ('RF', o_['l']) in envd:
                         envd[('FR', x, i_)] = envd[('RF', o_['l'])]
+        # enum values travelling inside a tuple/struct (`let (kind, ptr) = untag(x); match kind {..}`): the variant of a field
+        if rv is not None:
+            if rv['k'] == 'agg' and rv.get('ak') in ('tuple', 'adt') and rv.get('vidx') in (None, 0):
+                for i_, o_ in enumerate(rv.get('ops', [])):
+                    if 'l' in o_ and not o_['p'] and ('D', o_['l']) in envd:
+                        envd[('FD', x, i_)] = envd[('D', o_['l'])]
+            elif rv['k'] == 'use' and 'l' in rv['op'] and not rv['op']['p']:
+                for k in [k for k in envd if isinstance(k, tuple) and k[0] == 'FD' and k[1] == rv['op']['l']]:
+                    envd[('FD', x, k[2])] = envd[k]
+            elif rv['k'] == 'use' and 'l' in rv['op'] and len(rv['op']['p']) == 1 and rv['op']['p'][0]['k'] == 'field' \
+                    and ('FD', rv['op']['l'], rv['op']['p'][0].get('i')) in envd and x in self._frozen_enums():
+                envd[('D', x)] = envd[('FD', rv['op']['l'], rv['op']['p'][0].get('i'))]
         # fields of a freshly built tuple/struct whose values are known (`match (flag, x) { (true, _) => ..`)
         if rv is not None and rv['k'] == 'agg' and rv.get('ak') in ('tuple', 'adt') and x in self._frozen_enums() and rv.get('vidx') in (None, 0):
             for i_, o_ in enumerate(rv.get('ops', [])):
@@ -1649,6 +1661,70 @@ def guarded_by_variant(f, ve, loc):
     return f.forward_paths_hit([Loc(mine[1], 0)], [loc], blockers=[here]) is not None or f.edge_dominates(ve['edge'], loc)
 
 
+def eval_int(f, eb, e, depth=0):
+    """integer value of an expression built from constants (named constants fixed by specialise() and generic
+    constants whose initialiser is in the facts included), casts, lossless conversions, bit operations and indexing of
+    constant tables; None when it depends on anything else.  `addr | T::TAG`, `addr | TAGS[usize::from(T::IS_MULTISHOT)]`
+    and `if T::IS_MULTISHOT { addr | 1 } else { addr | 0 }` give the same tag under the same specialisation."""
+    if depth > 12 or not isinstance(e, tuple) or not e:
+        return None
+    k = e[0]
+    if k == 'const':
+        if isinstance(e[1], bool):
+            return int(e[1])
+        if isinstance(e[1], int):
+            return e[1]
+        name = str(e[2] or '')
+        for suf, val in getattr(f, 'const_overrides', {}).items():
+            if name.endswith(suf):
+                return int(val)
+        m = re.match(r'^<\w+ as (.*)>::(\w+)$', name)
+        facts = getattr(f, 'facts', None)
+        if m and facts is not None:
+            cf = facts.fn_opt('%s::%s' % (m.group(1), m.group(2)))
+            if cf is not None and cf.kind == 'const':
+                g = cf
+                for suf, val in getattr(f, 'const_overrides', {}).items():
+                    g = specialise(g, suf, bool(val))
+                eg = ExprBuilder(g, multi='phi')
+                reach = g.feasible_blocks()
+                vals = set()
+                for loc, s_ in g.assigns():
+                    if s_['lhs']['l'] == 0 and not s_['lhs']['p'] and loc[0] in reach:
+                        vals.add(eval_int(g, eg, eg.rvalue(s_['rv']), depth + 1))
+                if len(vals) == 1:
+                    return next(iter(vals))
+        return None
+    if k == 'cast':
+        return eval_int(f, eb, e[4], depth + 1)
+    if k == 'call' and e[1] in ('std::convert::From::from', 'std::convert::Into::into') and len(e[2]) == 1:
+        return eval_int(f, eb, e[2][0], depth + 1)
+    if k == 'proj' and e[2] == ('.0',) and e[1][0] == 'bin':
+        return eval_int(f, eb, e[1], depth + 1)
+    if k == 'bin':
+        op = e[1].replace('WithOverflow', '').replace('Unchecked', '')
+        if op in _BINOPS:
+            a, b = eval_int(f, eb, e[2], depth + 1), eval_int(f, eb, e[3], depth + 1)
+            if a is not None and b is not None:
+                return int(_BINOPS[op](a, b))
+        return None
+    if k == 'proj' and len(e[2]) == 1 and e[1][0] == 'agg' and e[1][1] == 'array':
+        m = re.match(r'^\[_(\d+)\]$', e[2][0])
+        idx = None
+        if m and eb is not None:
+            idx = eval_int(f, eb, eb.local(int(m.group(1))), depth + 1)
+        m2 = re.match(r'^\[(\d+)\]$', e[2][0])
+        if m2:
+            idx = int(m2.group(1))
+        if idx is not None and 0 <= idx < len(e[1][3]):
+            return eval_int(f, eb, e[1][3][idx], depth + 1)
+    if k == 'phi':
+        vals = {eval_int(f, eb, a, depth + 1) for a in e[1]}
+        if len(vals) == 1:
+            return next(iter(vals))
+    return None
+
+
 def must_have_bits(f, bits, at, field='flags', struct_suffix=None, start=None):
     """forward must-analysis at bit level: does the `field` of the (one) struct it belongs to have all of `bits` set
     at location `at` on every path from the entry?  Values are followed through integer locals, copies, casts,
@@ -1758,20 +1834,36 @@ def correlated_alternatives(f, operands, multi='phi'):
     for op in operands:
         ls = {x[1] for x in subexprs(leaf.operand(op)) if x[0] == 'local'}
         shared = ls if shared is None else (shared & ls)
-    cands = []
-    for l in sorted(shared or ()):
+    def alternatives(l, depth=0):
+        """choose-dicts, one per way the value of multi-definition local l was built (following copies of whole locals)"""
         ds = [d for d in f.defs.get(l, []) if not f.blocks[d[0][0]]['cleanup']]
-        if len(ds) > 1 and all(d[1] == 'assign' and d[2]['k'] == 'agg' for d in ds) and not f.partial_writes(l):
-            cands.append((l, ds))
-    if not cands:
-        eb = ExprBuilder(f, multi=multi)
-        return [tuple(eb.operand(op) for op in operands)]
-    l, ds = cands[0]
-    out = []
-    for d in ds:
-        eb = ExprBuilder(f, multi=multi, choose={l: d[0]})
-        out.append(tuple(eb.operand(op) for op in operands))
-    return out
+        if len(ds) < 2 or f.partial_writes(l) or depth > 3:
+            return None
+        out_ = []
+        for d in ds:
+            if d[1] == 'assign' and d[2]['k'] == 'agg':
+                out_.append({l: d[0]})
+            elif d[1] == 'assign' and d[2]['k'] == 'use' and 'l' in d[2]['op'] and not d[2]['op']['p']:
+                sub = alternatives(d[2]['op']['l'], depth + 1)
+                if sub is None:
+                    out_.append({l: d[0]})
+                else:
+                    out_ += [dict(c_, **{l: d[0]}) for c_ in sub]
+            elif d[1] == 'assign' and d[2]['k'] == 'use' and d[2]['op'].get('k') == 'const':
+                out_.append({l: d[0]})
+            else:
+                return None
+        return out_
+    for l in sorted(shared or ()):
+        alts = alternatives(l)
+        if alts:
+            out = []
+            for ch in alts:
+                eb = ExprBuilder(f, multi=multi, choose=ch)
+                out.append(tuple(eb.operand(op) for op in operands))
+            return out
+    eb = ExprBuilder(f, multi=multi)
+    return [tuple(eb.operand(op) for op in operands)]
 
 
 def table_rows(e):
@@ -1959,6 +2051,8 @@ def eval_with(e, subj, v, bits=None):
         return norm(x) if isinstance(x, int) else None
     if k == 'cast' and bits is not None:
         return eval_with(e[4], subj, v, bits)
+    if k == 'call' and e[1] in ('std::convert::From::from', 'std::convert::Into::into') and len(e[2]) == 1 and bits is not None:
+        return eval_with(e[2][0], subj, v, bits)        # lossless integer conversion
     if k == 'proj' and e[2] == ('.0',) and e[1][0] == 'bin':
         return eval_with(e[1], subj, v, bits)
     if k == 'bin':
@@ -2015,7 +2109,20 @@ def specialise_value(f, subj, v, eb=None, bits=None):
         for s in set(list(vals.values()) + [t['otherwise']]):
             if s != live:
                 rem.append((b, s))
-    return pruned(f, rem), decided
+    g = pruned(f, rem)
+    # ... and the edges no value-feasible path takes once those are gone (the value may have been turned into an enum
+    # first: `let kind = match tag { 0 => Single, _ => Multi }; .. match kind {..}`)
+    if decided:
+        try:
+            taken = set()
+            g.reach_blocks([Loc(0, 0)], limit=20000, edges_out=taken)
+            dead = [(b, s2) for b in range(len(g.blocks)) if not g.blocks[b]['cleanup'] for s2 in g.succ[b]
+                    if (b, s2) not in taken and not g.blocks[s2]['cleanup'] and any(b == tb for tb, _ in taken)]
+            if dead:
+                g = pruned(g, dead)
+        except OverflowError:
+            pass
+    return g, decided
 
 
 def closure_captures(facts, closure):
